@@ -8,6 +8,7 @@
    they catch, whether their body can raise by itself, what they raise), the accepted rule parameters, the
    presence of the guards. *)
 From TxV Require Import Core.Base Gen.SrcFront Model.FrontDefs Model.Front Proofs.FrontProofs.
+From TxV Require Model.Kinds.
 
 (* Every crash source of the modelled front-end is guarded in the current source; in particular the handler of
    visit_re_match catches Exception (not just re.error), the handlers of visit_str_match catch IndexError and
@@ -44,6 +45,19 @@ Theorem C23_resolution_terminates : forall (o : oracles) (user : list (list N)) 
   f1 > nrules g -> f2 > nrules g -> front src_cfg o user f1 g = front src_cfg o user f2 g.
 Proof. exact (fun o user g f1 f2 => front_fuel_irrelevant src_cfg o user g f1 f2 C23_source_guards). Qed.
 Print Assumptions C23_resolution_terminates.
+
+(* _determine_rule_types: the multi-pass rule-kind fixpoint (C03's model Model/Kinds.v, run on the translation
+   `to_kinds` of the resolved grammar) ends for every grammar, so this phase raises nothing. *)
+Theorem C23_rule_kind_fixpoint_terminates : forall (c : cfg) (t : tree), rule_kinds_fixpoint c t = Ok.
+Proof. exact rule_kinds_fixpoint_ok. Qed.
+Print Assumptions C23_rule_kind_fixpoint_terminates.
+
+(* the translation is meaningful:  A: B | C;  B: x=INT;  C: 'c';  ->  A abstract, B common, C match *)
+Example C23_rule_kinds_example :
+  exists s, Kinds.determine_types (to_kinds src_cfg t_kinds) = Some s /\
+            map (Kinds.types s) [0; 1; 2] = [Kinds.KAbstract; Kinds.KCommon; Kinds.KMatch].
+Proof. eexists. split; [vm_compute; reflexivity | reflexivity]. Qed.
+Print Assumptions C23_rule_kinds_example.
 
 (* The order in which _resolve_rule_refs / _resolve_cls_refs reach the references (not transcribed: a depth-first
    walk over mutable nodes) cannot change the CLASS of the outcome (Ok / TextXError / other exception): any list
